@@ -36,6 +36,20 @@ Theorem C14_non_numeric_index : forall E key salt xs, parse_usize key = None -> 
 Proof. exact disclose_here_non_numeric. Qed.
 Print Assumptions C14_non_numeric_index.
 
+(* a path with a reference token _sd or ... can only lead into the digest lists and placeholders that earlier
+   paths of the same list left in the working copy (the claims themselves hold no such member: C07_reserved_names_refused) *)
+Theorem C14_path_into_bookkeeping_is_error :
+  forall E claims p salt, reserved_token p = true -> build_disclosure E claims p salt = Err.
+Proof. exact build_disclosure_reserved_token. Qed.
+Print Assumptions C14_path_into_bookkeeping_is_error.
+
+(* an array element that an earlier path made disclosable is a placeholder now: addressing it again is an error *)
+Theorem C14_repeated_array_element_is_error :
+  forall E key salt xs i v,
+    parse_usize key = Some i -> nth_error xs i = Some v -> has_dots v = true -> disclose_here E key salt (JArr xs) = Err.
+Proof. exact disclose_here_placeholder. Qed.
+Print Assumptions C14_repeated_array_element_is_error.
+
 (* "issuing succeeds whenever each path addresses an existing member or element, nested paths precede
    enclosing ones and no path repeats, including when only nested members or only array elements are
    disclosable": jresolve is resolution of the path in the claims as given (member lookup, JSON-pointer index
